@@ -305,127 +305,186 @@ end Varpulis.Ckpt
 /-! ## part 2 (C19): `restore ∘ checkpoint` per component -/
 namespace Varpulis.Ckpt
 
+theorem map_eq_self {α} (f : α → α) (l : List α) (h : ∀ x ∈ l, f x = x) : l.map f = l := by
+  induction l with
+  | nil => rfl
+  | cons a t ih =>
+    simp only [List.map_cons, List.cons.injEq]
+    exact ⟨h a List.mem_cons_self, ih fun x hx => h x (List.mem_cons_of_mem _ hx)⟩
+
 theorem joinTs_split (t : Int) : joinTs (msOf t) (subOf t) = t := by
   simp only [joinTs, subOf]; exact ofMs_msOf_add t
+
+/-- a timestamp stored as milliseconds + sub-millisecond remainder comes back exactly -/
+theorem optTs_rt' (o : Option Int) :
+    Option.map ((fun ms => joinTs ms ((Option.map subOf o).getD 0)) ∘ msOf) o = o := by
+  cases o <;> simp [joinTs_split]
 
 theorem optTs_rt (o : Option Int) :
     (o.map msOf).map (fun ms => joinTs ms ((o.map subOf).getD 0)) = o := by
   cases o <;> simp [joinTs_split]
 
-theorem eventOfSer_serOfEvent (e : Event) : eventOfSer (serOfEvent e) = e := by
+theorem wholeTs_rt (t : Int) (h : wholeTs t = true) : ofMs (msOf t) = t :=
+  ofMs_msOf_whole t (by simpa [wholeTs] using h)
+
+/-- a timestamp stored as milliseconds only comes back iff it is a whole number of milliseconds -/
+theorem optTs_whole (o : Option Int) (h : o.all wholeTs = true) : Option.map (ofMs ∘ msOf) o = o := by
+  cases o with
+  | none => rfl
+  | some t => simp only [Option.all_some] at h; simp [wholeTs_rt t h]
+
+/-- what the conversion pair does to any event: the timestamp is truncated to milliseconds -/
+theorem eventOfSer_serOfEvent (e : Event) : eventOfSer (serOfEvent e) = e.truncMs := by
   obtain ⟨ty, t, d⟩ := e
-  simp only [eventOfSer, serOfEvent, s2vM_v2sM, ofMs_msOf_add]
+  simp only [eventOfSer, serOfEvent, Event.truncMs, s2vM_v2sM]
 
-theorem event_comp : eventOfSer ∘ serOfEvent = id := by
-  funext e; simp [eventOfSer_serOfEvent]
+theorem event_rt_whole (e : Event) (h : e.whole = true) : eventOfSer (serOfEvent e) = e := by
+  rw [eventOfSer_serOfEvent]
+  obtain ⟨ty, t, d⟩ := e
+  simp only [Event.truncMs, Event.whole] at h ⊢
+  rw [wholeTs_rt t h]
 
-theorem map_event_rt (l : List Event) : List.map (eventOfSer ∘ serOfEvent) l = l := by
-  simp [event_comp]
+theorem map_event_rt (l : List Event) (h : l.all Event.whole = true) :
+    List.map (eventOfSer ∘ serOfEvent) l = l := by
+  apply map_eq_self
+  intro e he
+  exact event_rt_whole e (List.all_eq_true.mp h e he)
 
-theorem optTs_rt' (o : Option Int) :
-    Option.map ((fun ms => joinTs ms ((Option.map subOf o).getD 0)) ∘ msOf) o = o := by
-  cases o <;> simp [joinTs_split]
-
-theorem tumbling_rt (w : TumblingSt) : TumblingSt.restore w.ckpt = w := by
+theorem tumbling_rt (w : TumblingSt) (h : w.Whole = true) : TumblingSt.restore w.ckpt = w := by
   obtain ⟨b, s⟩ := w
-  simp [TumblingSt.restore, TumblingSt.ckpt, emptyWC, map_event_rt, optTs_rt']
+  simp only [TumblingSt.Whole, Bool.and_eq_true] at h
+  simp only [TumblingSt.restore, TumblingSt.ckpt, emptyWC, List.map_map, Option.map_map]
+  rw [map_event_rt b h.1, optTs_whole s h.2]
 
-theorem sliding_rt (w : SlidingSt) : SlidingSt.restore w.ckpt = w := by
+theorem sliding_rt (w : SlidingSt) (h : w.Whole = true) : SlidingSt.restore w.ckpt = w := by
   obtain ⟨b, s⟩ := w
-  simp [SlidingSt.restore, SlidingSt.ckpt, emptyWC, map_event_rt, optTs_rt']
+  simp only [SlidingSt.Whole, Bool.and_eq_true] at h
+  simp only [SlidingSt.restore, SlidingSt.ckpt, emptyWC, List.map_map, Option.map_map]
+  rw [map_event_rt b h.1, optTs_whole s h.2]
 
-theorem count_rt (w : CountSt) : CountSt.restore w.ckpt = w := by
+theorem count_rt (w : CountSt) (h : w.Whole = true) : CountSt.restore w.ckpt = w := by
   obtain ⟨b⟩ := w
-  simp [CountSt.restore, CountSt.ckpt, emptyWC, map_event_rt]
+  simp only [CountSt.Whole] at h
+  simp only [CountSt.restore, CountSt.ckpt, emptyWC, List.map_map]
+  rw [map_event_rt b h]
 
-theorem slidingCount_rt (w : SlidingCountSt) : SlidingCountSt.restore w.ckpt = w := by
+theorem slidingCount_rt (w : SlidingCountSt) (h : w.Whole = true) : SlidingCountSt.restore w.ckpt = w := by
   obtain ⟨b, s⟩ := w
-  simp [SlidingCountSt.restore, SlidingCountSt.ckpt, emptyWC, map_event_rt]
+  simp only [SlidingCountSt.Whole, Bool.and_eq_true, beq_iff_eq] at h
+  simp only [SlidingCountSt.restore, SlidingCountSt.ckpt, emptyWC, List.map_map]
+  rw [map_event_rt b h.1, h.2]
 
-theorem session_rt (w : SessionSt) : SessionSt.restore w.ckpt = w := by
+theorem session_rt (w : SessionSt) (h : w.Whole = true) : SessionSt.restore w.ckpt = w := by
   obtain ⟨b, s⟩ := w
-  simp [SessionSt.restore, SessionSt.ckpt, emptyWC, map_event_rt, optTs_rt']
+  simp only [SessionSt.Whole, Bool.and_eq_true] at h
+  simp only [SessionSt.restore, SessionSt.ckpt, emptyWC, List.map_map, Option.map_map]
+  rw [map_event_rt b h.1, optTs_whole s h.2]
 
-theorem part_rt {σ} (ck : σ → WindowCkpt) (rs : WindowCkpt → σ) (h : ∀ w, rs (wcOf (pwcOf (ck w))) = w)
-    (ws : List (String × σ)) : partRestore rs (partCkpt ck ws) = ws := by
+theorem part_rt {σ} (ck : σ → PartWinCkpt) (rs : PartWinCkpt → σ) (ws : List (String × σ))
+    (h : ∀ kv ∈ ws, rs (ck kv.2) = kv.2) : partRestore rs (partCkpt ck ws) = ws := by
   simp only [partRestore, partCkpt, emptyWC, List.map_map]
-  induction ws with
-  | nil => rfl
-  | cons a t ih => obtain ⟨k, w⟩ := a; simp [h w] at ih ⊢; exact ih
+  apply map_eq_self
+  intro kv hkv
+  obtain ⟨k, w⟩ := kv
+  simp only [Function.comp, Prod.mk.injEq, true_and]
+  exact h (k, w) hkv
 
-theorem tumbling_prt (w : TumblingSt) : TumblingSt.restore (wcOf (pwcOf w.ckpt)) = w := by
+theorem tumbling_prt (w : TumblingSt) (h : w.buf.all Event.whole = true) : tumblingOfPwc (tumblingPwc w) = w := by
   obtain ⟨b, s⟩ := w
-  simp [TumblingSt.restore, TumblingSt.ckpt, wcOf, pwcOf, emptyWC, map_event_rt, optTs_rt']
+  simp only [tumblingOfPwc, tumblingPwc, emptyPWC, List.map_map, Option.map_map]
+  rw [map_event_rt b h, optTs_rt' s]
 
-theorem session_prt (w : SessionSt) : SessionSt.restore (wcOf (pwcOf w.ckpt)) = w := by
+theorem sliding_prt (w : SlidingSt) (h : w.buf.all Event.whole = true) : slidingOfPwc (slidingPwc w) = w := by
   obtain ⟨b, s⟩ := w
-  simp [SessionSt.restore, SessionSt.ckpt, wcOf, pwcOf, emptyWC, map_event_rt, optTs_rt']
+  simp only [slidingOfPwc, slidingPwc, emptyPWC, List.map_map, Option.map_map]
+  rw [map_event_rt b h, optTs_rt' s]
 
-theorem count_prt (w : CountSt) : CountSt.restore (wcOf (pwcOf w.ckpt)) = w := by
+theorem session_prt (w : SessionSt) (h : w.buf.all Event.whole = true) : sessionOfPwc (sessionPwc w) = w := by
+  obtain ⟨b, s⟩ := w
+  simp only [sessionOfPwc, sessionPwc, emptyPWC, List.map_map, Option.map_map]
+  rw [map_event_rt b h, optTs_rt' s]
+
+theorem count_prt (w : CountSt) (h : w.buf.all Event.whole = true) : countOfPwc (countPwc w) = w := by
   obtain ⟨b⟩ := w
-  simp [CountSt.restore, CountSt.ckpt, wcOf, pwcOf, emptyWC, map_event_rt]
+  simp only [countOfPwc, countPwc, emptyPWC, List.map_map]
+  rw [map_event_rt b h]
 
-theorem slidingCount_prt (w : SlidingCountSt) : SlidingCountSt.restore (wcOf (pwcOf w.ckpt)) = w := by
+/-- the partitioned sliding count window keeps its slide counter -/
+theorem slidingCount_prt (w : SlidingCountSt) (h : w.buf.all Event.whole = true) :
+    slidingCountOfPwc (slidingCountPwc w) = w := by
   obtain ⟨b, s⟩ := w
-  simp [SlidingCountSt.restore, SlidingCountSt.ckpt, wcOf, pwcOf, emptyWC, map_event_rt]
+  simp only [slidingCountOfPwc, slidingCountPwc, emptyPWC, List.map_map, Option.getD_some]
+  rw [map_event_rt b h]
 
-theorem sliding_prt (w : SlidingSt) : slidingOfPwc (slidingPwc w) = w := by
-  obtain ⟨b, s⟩ := w
-  simp [slidingOfPwc, slidingPwc, emptyPWC, map_event_rt, optTs_rt']
-
-theorem winSt_rt (w : WinSt) : (WinSt.fresh w).restore w.ckpt = w := by
+theorem winSt_rt (w : WinSt) (h : w.Restorable = true) : (WinSt.fresh w).restore w.ckpt = w := by
   cases w with
-  | tumbling w => simp [WinSt.fresh, WinSt.restore, WinSt.ckpt, tumbling_rt]
-  | sliding w => simp [WinSt.fresh, WinSt.restore, WinSt.ckpt, sliding_rt]
-  | count w => simp [WinSt.fresh, WinSt.restore, WinSt.ckpt, count_rt]
-  | slidingCount w => simp [WinSt.fresh, WinSt.restore, WinSt.ckpt, slidingCount_rt]
-  | session w => simp [WinSt.fresh, WinSt.restore, WinSt.ckpt, session_rt]
-  | pTumbling ws => simp [WinSt.fresh, WinSt.restore, WinSt.ckpt, part_rt _ _ tumbling_prt]
+  | tumbling w => simp only [WinSt.fresh, WinSt.restore, WinSt.ckpt, tumbling_rt w h]
+  | sliding w => simp only [WinSt.fresh, WinSt.restore, WinSt.ckpt, sliding_rt w h]
+  | count w => simp only [WinSt.fresh, WinSt.restore, WinSt.ckpt, count_rt w h]
+  | slidingCount w => simp only [WinSt.fresh, WinSt.restore, WinSt.ckpt, slidingCount_rt w h]
+  | session w => simp only [WinSt.fresh, WinSt.restore, WinSt.ckpt, session_rt w h]
+  | pTumbling ws =>
+    simp only [WinSt.fresh, WinSt.restore, WinSt.ckpt]
+    rw [part_rt _ _ ws fun kv hkv => tumbling_prt kv.2 (List.all_eq_true.mp h kv hkv)]
   | pSliding ws =>
-    simp only [WinSt.fresh, WinSt.restore, WinSt.ckpt, emptyWC, List.map_map]
-    congr 1
-    induction ws with
-    | nil => rfl
-    | cons a t ih => obtain ⟨k, w⟩ := a; simp [sliding_prt] at ih ⊢; exact ih
-  | pSession ws => simp [WinSt.fresh, WinSt.restore, WinSt.ckpt, part_rt _ _ session_prt]
-  | pCount ws => simp [WinSt.fresh, WinSt.restore, WinSt.ckpt, part_rt _ _ count_prt]
-  | pSlidingCount ws => simp [WinSt.fresh, WinSt.restore, WinSt.ckpt, part_rt _ _ slidingCount_prt]
+    simp only [WinSt.fresh, WinSt.restore, WinSt.ckpt]
+    rw [part_rt _ _ ws fun kv hkv => sliding_prt kv.2 (List.all_eq_true.mp h kv hkv)]
+  | pSession ws =>
+    simp only [WinSt.fresh, WinSt.restore, WinSt.ckpt]
+    rw [part_rt _ _ ws fun kv hkv => session_prt kv.2 (List.all_eq_true.mp h kv hkv)]
+  | pCount ws =>
+    simp only [WinSt.fresh, WinSt.restore, WinSt.ckpt]
+    rw [part_rt _ _ ws fun kv hkv => count_prt kv.2 (List.all_eq_true.mp h kv hkv)]
+  | pSlidingCount ws =>
+    simp only [WinSt.fresh, WinSt.restore, WinSt.ckpt]
+    rw [part_rt _ _ ws fun kv hkv => slidingCount_prt kv.2 (List.all_eq_true.mp h kv hkv)]
 
 /-! ### SASE -/
 theorem val_comp : s2v ∘ v2s = id := by funext v; simp [s2v_v2s]
 
-theorem run_rt (r : Run) :
+theorem run_rt (r : Run) (hw : r.Whole = true) :
     Run.fromCkpt r.ckpt = { r with pendingNegs := [], kleene := r.kleene.map fun kc =>
       { events := kc.events, aliases := kc.events.map fun _ => none, deferred := none } } := by
   obtain ⟨cs, st, ca, sa, dl, pk, iv, pn, an, kl⟩ := r
+  simp only [Run.Whole, Bool.and_eq_true] at hw
+  obtain ⟨⟨⟨hst, hca⟩, han⟩, hkl⟩ := hw
   simp only [Run.fromCkpt, Run.ckpt, List.map_map, Option.map_map]
   congr 1
-  · induction st with
-    | nil => rfl
-    | cons a t ih => simp [eventOfSer_serOfEvent] at ih ⊢; exact ih
-  · induction ca with
-    | nil => rfl
-    | cons a t ih => simp [eventOfSer_serOfEvent] at ih ⊢; exact ih
+  · apply map_eq_self
+    intro a ha
+    obtain ⟨e, al⟩ := a
+    have := List.all_eq_true.mp hst (e, al) ha
+    simp only [Function.comp, event_rt_whole e this]
+  · apply map_eq_self
+    intro a ha
+    obtain ⟨k, e⟩ := a
+    have := List.all_eq_true.mp hca (k, e) ha
+    simp only [Function.comp, event_rt_whole e this]
   · exact optTs_rt' sa
   · exact optTs_rt' dl
   · simp [val_comp]
   · cases an with
     | none => rfl
     | some l =>
-      simp only [Option.map_some, Function.comp, List.map_map]
-      congr 1
-      induction l with
-      | nil => rfl
-      | cons a t ih => simp [eventOfSer_serOfEvent] at ih ⊢; exact ih
+      simp only [Option.map_some, Function.comp, List.map_map, Option.some.injEq]
+      apply map_eq_self
+      intro a ha
+      obtain ⟨k, e⟩ := a
+      have := List.all_eq_true.mp han (k, e) ha
+      simp only at this
+      simp only [Function.comp, event_rt_whole e this]
   · cases kl with
     | none => rfl
-    | some kc => simp [Function.comp, List.map_map, map_event_rt]
+    | some kc =>
+      simp only at hkl
+      simp [List.map_map, map_event_rt kc.events hkl]
 
 theorem run_view_rt (r : Run) (h : r.Restorable = true) : (Run.fromCkpt r.ckpt).view = r.view := by
-  rw [run_rt]
-  obtain ⟨cs, st, ca, sa, dl, pk, iv, pn, an, kl⟩ := r
   simp only [Run.Restorable, Bool.and_eq_true, List.isEmpty_iff] at h
-  obtain ⟨h1, h2⟩ := h
+  obtain ⟨⟨h1, h2⟩, h3⟩ := h
+  rw [run_rt r h3]
+  obtain ⟨cs, st, ca, sa, dl, pk, iv, pn, an, kl⟩ := r
+  simp only at h1 h2
   subst h1
   simp only [Run.view]
   congr 1
@@ -482,16 +541,11 @@ theorem heapOfList_sorted (l : List Expiry) (h : HeapSorted l) : heapOfList l = 
     rw [ih ht]
     exact heapPush_sorted a t h
 
-theorem map_eq_self {α} (f : α → α) (l : List α) (h : ∀ x ∈ l, f x = x) : l.map f = l := by
-  induction l with
-  | nil => rfl
-  | cons a t ih =>
-    simp only [List.map_cons, List.cons.injEq]
-    exact ⟨h a List.mem_cons_self, ih fun x hx => h x (List.mem_cons_of_mem _ hx)⟩
-
-theorem join_rt (c : JoinCfg) (w : Int) (j : JoinSt) (h : j.WF) : JoinSt.restore w (j.ckpt c) = j := by
+theorem join_rt (c : JoinCfg) (w : Int) (j : JoinSt) (h : j.WF) (hw : j.Whole) :
+    JoinSt.restore w (j.ckpt c) = j := by
   obtain ⟨bufs, q, gc⟩ := j
   obtain ⟨hb, hq⟩ := h
+  simp only [JoinSt.Whole] at hw
   simp only at hb hq
   simp only [JoinSt.restore, JoinSt.ckpt, List.map_map, Option.map_map, optTs_rt']
   congr 1
@@ -507,8 +561,9 @@ theorem join_rt (c : JoinCfg) (w : Int) (j : JoinSt) (h : j.WF) : JoinSt.restore
     intro p hp
     obtain ⟨ts, e⟩ := p
     have := hb (s, kbs) hsb (k, ps) hkb (ts, e) hp
-    simp only at this
-    simp [eventOfSer_serOfEvent, this]
+    have hwe := hw (s, kbs) hsb (k, ps) hkb (ts, e) hp
+    simp only at this hwe
+    simp [event_rt_whole e hwe, this]
   · have : q.map ((fun x : QEntry => ({ t := joinTs x.ms x.sub, source := x.source, key := x.key } : Expiry)) ∘
         fun x : Expiry => ({ ms := msOf x.t, sub := subOf x.t, source := x.source, key := x.key } : QEntry)) = q := by
       apply map_eq_self
@@ -699,7 +754,7 @@ theorem stream_rt (cfg : String → StreamCfg) (s : EngineSt) (vars0 : List (Str
   congr 1
   · cases win with
     | none => rfl
-    | some w => simp [winSt_rt]
+    | some w => simp [winSt_rt w (h.windows _ hm w rfl)]
   · cases sase with
     | none => rfl
     | some x =>
@@ -707,7 +762,7 @@ theorem stream_rt (cfg : String → StreamCfg) (s : EngineSt) (vars0 : List (Str
       exact congrArg some (sase_view_rt x (h.sase _ hm x rfl))
   · cases join with
     | none => rfl
-    | some j => simp [join_rt _ _ j (h.join _ hm j rfl)]
+    | some j => simp [join_rt _ _ j (h.join _ hm j rfl) (h.joinWhole _ hm j rfl)]
   · cases dist with
     | none => rfl
     | some d => simp [distinct_rt d (h.distinct _ hm d rfl)]
